@@ -260,6 +260,14 @@ func (s Slicer) load(addr ssa.Value, walk func(ssa.Value), add func(Origin)) {
 
 // contents collects everything stored into a local object (alloc, map, slice).
 func (s Slicer) contents(obj ssa.Value, walk func(ssa.Value), add func(Origin)) {
+	s.contentsV(obj, walk, add, map[ssa.Value]bool{})
+}
+
+func (s Slicer) contentsV(obj ssa.Value, walk func(ssa.Value), add func(Origin), visited map[ssa.Value]bool) {
+	if visited[obj] {
+		return
+	}
+	visited[obj] = true
 	refs := obj.Referrers()
 	if refs == nil {
 		return
@@ -267,6 +275,15 @@ func (s Slicer) contents(obj ssa.Value, walk func(ssa.Value), add func(Origin)) 
 	stored := false
 	for _, r := range *refs {
 		switch r := r.(type) {
+		case *ssa.Phi, *ssa.Slice:
+			// a byte buffer carried around a loop, merged with nil or re-sliced: what
+			// a known filler (Decode, Encode, copy, ReadFull) writes through the alias
+			// is written into this object
+			if isByteSlice(r.(ssa.Value).Type()) || isByteSlice(obj.Type()) {
+				if s.aliasWrites(r.(ssa.Value), walk, visited) {
+					stored = true
+				}
+			}
 		case *ssa.Store:
 			if r.Addr == obj {
 				stored = true
@@ -300,7 +317,10 @@ func (s Slicer) contents(obj ssa.Value, walk func(ssa.Value), add func(Origin)) 
 			// the address escapes into a call which may write through it: what is
 			// written may derive from the call's other arguments
 			stored = true
-			add(Origin{Kind: "escaped", V: obj, Name: Callee(r)})
+			// (append and copy put nothing into it but their other operands)
+			if bi, isB := r.Common().Value.(*ssa.Builtin); !isB || (bi.Name() != "append" && bi.Name() != "copy" && bi.Name() != "len" && bi.Name() != "cap") {
+				add(Origin{Kind: "escaped", V: obj, Name: Callee(r)})
+			}
 			for _, a := range r.Common().Args {
 				if a != obj {
 					walk(a)
@@ -368,4 +388,67 @@ func OriginCalls(os []Origin, prefixes ...string) []Origin {
 		}
 	}
 	return out
+}
+
+func isByteSlice(t types.Type) bool {
+	if p, ok := t.Underlying().(*types.Pointer); ok {
+		t = p.Elem()
+	}
+	switch x := t.Underlying().(type) {
+	case *types.Slice:
+		b, ok := x.Elem().Underlying().(*types.Basic)
+		return ok && b.Kind() == types.Byte
+	case *types.Array:
+		b, ok := x.Elem().Underlying().(*types.Basic)
+		return ok && b.Kind() == types.Byte
+	}
+	return false
+}
+
+// fillers: functions that write their source operand(s) into a destination
+// buffer; callee name -> (index of the destination, indices of the sources).
+var fillers = map[string][2][]int{
+	"(*encoding/base64.Encoding).Decode": {{1}, {2}},
+	"(*encoding/base64.Encoding).Encode": {{1}, {2}},
+	"encoding/hex.Encode":                {{0}, {1}},
+	"encoding/hex.Decode":                {{0}, {1}},
+	"io.ReadFull":                        {{1}, {0}},
+	"io.ReadAtLeast":                     {{1}, {0}},
+}
+
+// aliasWrites follows an alias (phi, re-slice) of a byte buffer to the fillers
+// that write through it and walks what they write; reports whether any did.
+func (s Slicer) aliasWrites(alias ssa.Value, walk func(ssa.Value), visited map[ssa.Value]bool) bool {
+	if visited[alias] || len(visited) > 12 || alias.Referrers() == nil {
+		return false
+	}
+	visited[alias] = true
+	wrote := false
+	for _, ref := range *alias.Referrers() {
+		switch x := ref.(type) {
+		case *ssa.Phi, *ssa.Slice:
+			if s.aliasWrites(x.(ssa.Value), walk, visited) {
+				wrote = true
+			}
+		case *ssa.Call:
+			if bi, ok := x.Call.Value.(*ssa.Builtin); ok && bi.Name() == "copy" && len(x.Call.Args) == 2 && x.Call.Args[0] == alias {
+				walk(x.Call.Args[1])
+				wrote = true
+				continue
+			}
+			if f, ok := fillers[Callee(x)]; ok {
+				for _, di := range f[0] {
+					if di < len(x.Call.Args) && x.Call.Args[di] == alias {
+						for _, si := range f[1] {
+							if si < len(x.Call.Args) {
+								walk(x.Call.Args[si])
+							}
+						}
+						wrote = true
+					}
+				}
+			}
+		}
+	}
+	return wrote
 }
